@@ -887,14 +887,15 @@ def run_impl(case):
     stream = _NamedIO(text)
     if base:
         stream.name = str(REPO / base)
-    else:
-        del_name = True
     obs = {}
+    import contextlib
+    sink = io.StringIO()
     try:
-        if base:
-            sf_generate(stream, {}, Capture())
-        else:
-            sf_generate(io.StringIO(text), {}, Capture())
+        with contextlib.redirect_stdout(sink), contextlib.redirect_stderr(sink):
+            if base:
+                sf_generate(stream, {}, Capture())
+            else:
+                sf_generate(io.StringIO(text), {}, Capture())
         obs["outcome"] = "accept"
     except _Enough:
         obs["outcome"] = "accept"
@@ -930,3 +931,43 @@ def run_impl(case):
                 raise
             obs["env"] = None
     return obs
+
+
+# =============================================================================== seed list maintenance
+def build_seeds():
+    """(maintenance, not part of a check run) try every recipe of /repo/examples and /repo/tests once and
+    cache those that run offline, quickly and are small:  python -m harness.c20 build-seeds"""
+    import time
+    cands = sorted(set(REPO.glob("examples/**/*.yml")) | set(REPO.glob("tests/*.yml")))
+    keep = []
+    for p in cands:
+        rel = str(p.relative_to(REPO))
+        txt = p.read_text(errors="replace")
+        if re.search(r"salesforce|soql|Salesforce|SOQL|http|sql|debug|RecipeState", txt):
+            continue
+        try:
+            t = from_py(yaml.safe_load(txt))
+        except Exception:
+            continue
+        n = node_count(t)
+        if n > 160:
+            continue
+        case = {"kind": "text", "text": dump(t), "base": rel}
+        t0 = time.time()
+        import harness.c20 as me
+        obs = C.run_impl_all(me, [case], timeout=5, workers=1)[0]
+        dt = time.time() - t0
+        ok = obs.get("outcome") == "accept" and not obs.get("truncated") and obs.get("rows", 0) <= 400
+        print(f"{rel:60s} nodes={n:4d} {obs.get('outcome')} rows={obs.get('rows')} {dt:.2f}s {'KEEP' if ok else ''}")
+        if ok:
+            keep.append({"path": rel, "nodes": n, "rows": obs.get("rows")})
+    SEEDS_FILE.parent.mkdir(parents=True, exist_ok=True)
+    SEEDS_FILE.write_text(json.dumps({"_comment": "cached list of repository recipes used as C20 seeds (built by "
+                                      "`python -m harness.c20 build-seeds`; each ran offline, < 5 s, <= 400 rows)",
+                                      "seeds": keep}, indent=1))
+    print(len(keep), "seeds kept")
+
+
+if __name__ == "__main__":
+    if sys.argv[1:] == ["build-seeds"]:
+        build_seeds()
